@@ -3,7 +3,7 @@ use std::io::ErrorKind;
 use std::ptr;
 use std::sync::atomic::{AtomicBool, AtomicPtr, Ordering};
 use std::sync::Arc;
-use std::time::Duration;
+use std::time::{Duration, Instant};
 
 use crate::cancel::Cancel;
 use crate::coroutine_impl::{
@@ -237,10 +237,11 @@ impl EventSource for Park {
         may_queue::verif::point(may_queue::verif::site::PARK_SUB_ENTER, Arc::as_ptr(&self.wait_co) as usize);
         // if we share the same park, the previous timer may wake up it by false
         // if we not deleted the timer in time
-        let timeout_handle = self
-            .timeout
-            .take()
-            .map(|dur| get_scheduler().add_timer(dur, self.wait_co.clone()));
+        let dur = self.timeout.take();
+        // the coroutine is published only below: if we get delayed for longer than
+        // the timeout the timer fires into the still empty slot, remember when
+        let deadline = dur.map(|dur| Instant::now() + dur);
+        let timeout_handle = dur.map(|dur| get_scheduler().add_timer(dur, self.wait_co.clone()));
         self.set_timeout_handle(timeout_handle);
 
         let _g = self.delay_drop();
@@ -281,6 +282,17 @@ impl EventSource for Park {
             if let Some(mut co) = self.wait_co.take() {
                 set_co_para(&mut co, std::io::Error::other("Canceled"));
                 get_scheduler().schedule(co);
+            }
+        }
+
+        // re-check the timeout: the timer may have fired before the coroutine
+        // was stored, then nobody else is going to report it
+        if let Some(deadline) = deadline {
+            if Instant::now() >= deadline {
+                if let Some(mut co) = self.wait_co.take() {
+                    set_co_para(&mut co, std::io::Error::new(ErrorKind::TimedOut, "timeout"));
+                    get_scheduler().schedule(co);
+                }
             }
         }
     }
